@@ -2392,6 +2392,41 @@ def undefer_raises(stmts):
                     i += 3
                     changed = True
                     continue
+        # the same without a separate initialisation: the chain ends in `else: problem = None`
+        if i + 1 < len(stmts) and isinstance(st, ast.If) and isinstance(stmts[i + 1], ast.If):
+            fin = stmts[i + 1]
+            if not fin.orelse and len(fin.body) == 1 and isinstance(fin.body[0], ast.Raise):
+                t_ = U(fin.test).replace(" ", "")
+                v = t_[:-len("isnotNone")] if t_.endswith("isnotNone") else (t_ if t_.isidentifier() else None)
+                if v and v.isidentifier():
+                    # find the last else arm
+                    n_, prev = st, None
+                    arms_ok = True
+                    while True:
+                        if not (len(n_.body) == 1 and isinstance(n_.body[0], ast.Assign) and len(n_.body[0].targets) == 1 and U(n_.body[0].targets[0]) == v):
+                            arms_ok = False
+                            break
+                        if len(n_.orelse) == 1 and isinstance(n_.orelse[0], ast.If):
+                            n_ = n_.orelse[0]
+                            continue
+                        break
+                    tail_none = arms_ok and len(n_.orelse) == 1 and isinstance(n_.orelse[0], ast.Assign) and U(n_.orelse[0].targets[0]) == v \
+                        and isinstance(n_.orelse[0].value, ast.Constant) and n_.orelse[0].value.value is None
+                    # v is not read anywhere after the deferred raise
+                    later = any(isinstance(x, ast.Name) and x.id == v for s_ in stmts[i + 2:] for x in ast.walk(s_))
+                    none_values = any(isinstance(a_.body[0].value, ast.Constant) and a_.body[0].value.value is None for a_ in [st] if arms_ok)
+                    if tail_none and not later and not none_values:
+                        chain = copy.deepcopy(st)
+                        m_ = chain
+                        while len(m_.orelse) == 1 and isinstance(m_.orelse[0], ast.If):
+                            m_ = m_.orelse[0]
+                        m_.orelse = []
+                        new_chain = _replace_sets(chain, v, fin.body[0])
+                        if new_chain is not None:
+                            out.append(new_chain)
+                            i += 2
+                            changed = True
+                            continue
         out.append(st)
         i += 1
     return out, changed
